@@ -2,7 +2,7 @@
 from .. import scriptprop
 
 ID = "C01"
-GEN = ["AvlShapes.lean"]   # regenerated from the source on every run (tie 4B): kernels / call shapes / function shapes
+GEN = ["AvlShapes.lean", "UtilShapes.lean", "MathShapes.lean"]   # regenerated from the source on every run (tie 4B): kernels / call shapes / function shapes
 RULE = ("histories of add/remove(present|absent)/contains/len/clear/clone/pre,in,post blocks/walks/string over 3 tree handles per world, "
         "3 comparators (natural, reversed, (x mod 7,x)), value universes {0..7} (heavy duplicates) and {0..40}; plus every history of length <= 5 over {0,1,2} "
         "with add/remove in the thorough tier; non-trivial = at least one add and one remove or clone")
@@ -11,7 +11,7 @@ ASSUMPTIONS = ["independence of a clone is observed by continuing to mutate both
 
 def history(rng, nops, universe, blocks=True):
     sc, live, bags = [], [], {}
-    cmp_id = rng.randrange(3)
+    cmp_id = rng.choice([0, 1, 2, 3, 4, 5])   # 3..5: the library's own typ.Compare (adjacent floats, ints at both ends of the range, plain ints)
     def new(h):
         sc.append("new %d %d" % (h, cmp_id)); bags[h] = []
         if h not in live: live.append(h)
